@@ -453,5 +453,13 @@ func buildEntries(w *World) []*Entry {
 			return "ok"
 		}})
 	}
+	// ---- the surface of an RPC client: router, HTTP handler, websocket server (spec/RpcFuzz.tla)
+	rw, err := w.setupRPC()
+	if err != nil {
+		panic("harness: rpc set-up: " + err.Error())
+	}
+	w.rpc = rw
+	buildRPCEntries(w, rw, add)
+
 	return es
 }
